@@ -32,9 +32,27 @@ SPEC = dict(
                      prelude="Open Scope Z_scope.")),
     ],
     classify=classify,
-    rule="",
+    rule=("histories of 3..12 requests against the real quota.NewGroup / Group.NewSubGroup / Group.UpdateQuotaLimits "
+          "(runtime.NumCPU fixed to 2, 4 or 8 through the package's own variable): 15% new root groups, 50% sub-groups, 35% "
+          "updates, targets chosen among the groups that exist at that moment down to depth 3; every request carries each "
+          "of memory / cpu (count, percentage) / cpu set / threads with probability 1/3..2/5, values from small pools so "
+          "that limits collide (memory 0, 640KiB, 640KiB+1, 1..8MiB; threads -1..16; count 0,1,2,4; percentage 0,25,50,100; "
+          "cpu sets: prefixes 0..k (k up to 12 > NumCPU), random subsets of 0..7, duplicates, empty); some histories "
+          "concentrate on memory+threads or on cpu. Plus three fixed histories (the recorded finding; memory and thread "
+          "boundary cases with an unlimited middle group). After EVERY request the driver records accept/refuse and the "
+          "whole forest read back from the exported Group fields; the model is compared request by request starting from the "
+          "observed forest, and the fit invariants are recomputed on the observed forest. A history ends at the first "
+          "request after which a fit is broken. Non-trivial = at least 2 accepted and 1 refused request and depth >= 2."),
     exhaustive=dict(quick=False, thorough=False),
-    trusted_base=[],
-    assumptions=[],
-    disabled="under construction",
+    trusted_base=[
+        "hand-written model coq/models/Quota.v of snap/quota/quota.go and resources.go, tied by the differential run (harness/overlay/zzverif/c36/main.go)",
+        "harness/overlay/snap/quota/zz_verif_c36_hook.go: a 4-line build-tagged overlay file that assigns the package variable runtimeNumCPU (what export_test.go's MockRuntimeNumCPU does); never copied into /repo",
+        "the driver's own Go diagnosis (which fit is broken, whether an effective cpu set changed) is used ONLY to map a monitor failure to its KNOWN_FINDINGS key; the verdict itself is Quota.monitor_fail evaluated in Coq",
+    ],
+    assumptions=[
+        "PARTIAL: proved for all histories: memory fit, thread fit, nesting of cpu sets, refused requests change nothing. The CPU fit is refuted (two witnesses, both confirmed on the real code in every run). Not proved: a guarded CPU theorem; the CPU fit is monitored on the implementation's observed trees only.",
+        "group names are pairwise distinct (getQuotaAllocations keys its map by name; uniqueness is enforced by the callers in overlord/servicestate) and syntactically valid; journal quotas, snaps and services are not modelled",
+        "Go int / quantity.Size arithmetic is modelled by unbounded integers (no overflow); cpu count and percentage are non-negative in the differential run",
+        "UpdateQuotaLimits is exercised as exported, i.e. also with partial Resources values; overlord/servicestate always passes the merged resources",
+    ],
 )
